@@ -5,3 +5,5 @@ open GrVerif.Props.C14
 #print axioms table_no_fault
 #print axioms table_all_or_nothing
 #print axioms header_split
+#print axioms lz4_sound
+#print axioms table_is_reference_decoding
